@@ -78,6 +78,8 @@ pub struct Sim {
     pub node_ctx: TestNodeContext,
     pub chan_ctx: TestChannelContext,
     pub extra_channels: Vec<ChannelId>,
+    /// the dbids of `extra_channels` (the protocol handler addresses a channel by peer id and dbid)
+    pub extra_dbids: Vec<u64>,
     pub hash_ctr: u32,
     /// headers of the blocks we added ourselves (for removals): (header-pair before the block)
     pub prev_tips: Vec<Headers>,
@@ -335,6 +337,7 @@ impl Sim {
             node_ctx,
             chan_ctx,
             extra_channels: vec![],
+            extra_dbids: vec![],
             hash_ctr: 0,
             prev_tips: vec![],
             pending_muts_after_err: 0,
@@ -723,8 +726,54 @@ impl Sim {
         });
         if r.0 == Outcome::Ok && !self.extra_channels.contains(&id) {
             self.extra_channels.push(id);
+            self.extra_dbids.push(nn);
         }
         r
+    }
+
+    /// one request through the real `RootHandler::handle` (vls-protocol-signer), inside a persister transaction
+    fn root_call(&mut self, msg: vls_protocol::msgs::Message) -> (Outcome, usize) {
+        use vls_protocol_signer::handler::Handler;
+        self.txn(move |s| {
+            let h = s.root_handler();
+            let r = std::panic::catch_unwind(std::panic::AssertUnwindSafe(|| h.handle(msg)));
+            match r {
+                Err(_) => Err(Status::internal("handler aborted")),
+                Ok(Ok(_reply)) => Ok(()),
+                Ok(Err(e)) => Err(match e { vls_protocol_signer::handler::Error::Signing(st) => st, other => Status::internal(format!("{:?}", other)) }),
+            }
+        })
+    }
+
+    /// `NewChannel` through the protocol handler's arm (same peer as `new_channel`)
+    pub fn handler_new_channel(&mut self, nn: u64) -> (Outcome, usize) {
+        use vls_protocol::msgs::{self, Message};
+        let peer = make_test_pubkey(2).serialize();
+        let id = ChannelId::new_from_peer_id_and_oid(&peer, nn);
+        let r = self.root_call(Message::NewChannel(msgs::NewChannel { peer_id: vls_protocol::model::PubKey(peer), dbid: nn }));
+        if r.0 == Outcome::Ok && !self.extra_channels.contains(&id) {
+            self.extra_channels.push(id);
+            self.extra_dbids.push(nn);
+        }
+        r
+    }
+
+    /// `ForgetChannel` through the protocol handler's arm; the handler addresses a channel by (peer, dbid), so only
+    /// the channels created by `newch` / `HNEW` can be named: for `which = 0` or without such a channel this is `forget`
+    pub fn handler_forget(&mut self, which: u64) -> (Outcome, usize) {
+        use vls_protocol::msgs::{self, Message};
+        if which == 0 || self.extra_channels.is_empty() {
+            return self.forget(which);
+        }
+        let dbid = self.extra_dbids[(which as usize - 1) % self.extra_dbids.len()];
+        let peer = make_test_pubkey(2).serialize();
+        self.root_call(Message::ForgetChannel(msgs::ForgetChannel { node_id: vls_protocol::model::PubKey(peer), dbid }))
+    }
+
+    /// `GetHeartbeat` through the protocol handler's arm
+    pub fn handler_heartbeat(&mut self) -> (Outcome, usize) {
+        use vls_protocol::msgs::{self, Message};
+        self.root_call(Message::GetHeartbeat(msgs::GetHeartbeat {}))
     }
 
     /// `setup_channel` on stub `nn` with a setup the policy refuses (kind 0: holder delay below the
@@ -1161,6 +1210,9 @@ pub fn exec_op(sim: &mut Sim, op: &str) -> (Outcome, usize) {
         ["newch", nn] => sim.new_channel(num(nn) as u64),
         ["forget", w] => sim.forget(num(w) as u64),
         ["hb"] => sim.heartbeat(),
+        ["HNEW", nn] => sim.handler_new_channel(num(nn) as u64),
+        ["HFORGET", w] => sim.handler_forget(num(w) as u64),
+        ["HHB"] => sim.handler_heartbeat(),
         ["blk+", g] => sim.add_block(*g == "g"),
         ["HBLK+", g] => sim.handler_add_block(*g == "g"),
         ["blkn", n] => sim.add_blocks(num(n) as u64),
